@@ -215,3 +215,25 @@ META["C13"] = {
     "level_note": ("Trusted: the replica of ingester.Read used for the result-cache-off runs (checked equal to Transform.Read under the default "
                    "configuration in every case). Process-global switches: one case at a time per process."),
 }
+
+add("C14", "TestC14", race=True,
+    rule=("Cases (rounds): 2-4 generated (schema, input) entries over all formats and transform flavours (incl. javascript and "
+          "javascript_with_context), 2-16 goroutines each driving its own Transform over the SHARED Schema object of its entry (entry 0 "
+          "always shared by >= 2 goroutines), 1-3 repeats, GOMAXPROCS in {1,2,16}, generated runtime.Gosched jitter at Read granularity; "
+          "test binary built with -race (GORACE=halt_on_error=1: a report ends the run and the round in progress is the replay). "
+          "Oracle: every goroutine's transcript (bytes, errors, checksums) equals the serial transcript of the same (schema, input); no "
+          "race report. Non-trivial: >= 2 different schemas run at once with one Schema shared by >= 2 goroutines; distinct by SHA-256."),
+    quick={"checks": 100, "shards": 4, "timeout": 900, "gomaxprocs": 16},
+    thorough={"checks": 1500, "shards": 16, "timeout": 3300, "gomaxprocs": 16},
+    floors={"javascript": 0.3, "goroutines=16": 0.1, "maxprocs=1": 0.15},
+    assumptions=["the Go scheduler owns the interleavings; the harness only perturbs them (Gosched jitter, GOMAXPROCS)",
+                 "a race that needs a rare window may go unseen: the claim is no report and no cross-talk over the rounds run"])
+
+META["C14"] = {
+    "technique": "concurrent differential testing (per-goroutine transcript vs serial) under the Go race detector",
+    "design_ref": "DESIGN.md §5 C14, §7",
+    "level_text": ("Generated mixes of concurrent transforms over shared and distinct Schemas under -race; each goroutine must see exactly "
+                   "its serial results and the race detector must stay silent. Exploration of schedules the Go runtime happens to "
+                   "produce under perturbation - not an enumeration of interleavings."),
+    "level_note": "Trusted: Go's race detector. Limits stated in DESIGN §7: no control over the scheduler.",
+}
